@@ -69,7 +69,8 @@ def evaluate(dst, props, config="default"):
             try:
                 obs.extend(fn(facts).obs)
             except Exception as e:
-                obs.append(Ob(r, "analyser-crash", "-", VIOLATED, "rule crashed: %r" % e, {"tb": traceback.format_exc()[-1200:]}))
+                # like ./check: a rule that crashes on novel code abstains
+                obs.append(Ob(r, "analyser-crash", "-", "unclassified", "rule crashed: %r" % e, {"tb": traceback.format_exc()[-1200:]}))
         out[p] = obs
     # open known findings are reported as KNOWN-FINDING by ./check, not as violations: drop them here as well
     try:
